@@ -41,11 +41,11 @@ KANI_GROUPS = {
         harnesses=[
             dict(name="vk_highest_l3", kind="bounded(L=3, 5 steps)", timeout=600, props=["C04"], witness_units=["highest_lowest"]),
             dict(name="vk_lowest_l3", kind="bounded(L=3, 5 steps)", timeout=600, props=["C04"], witness_units=["highest_lowest"]),
-            dict(name="vk_highest_lowest_delta_l3", kind="bounded(L=3, 5 steps)", timeout=600, props=["C04"], witness_units=["highest_lowest"]),
+            dict(name="vk_highest_lowest_delta_l3", kind="bounded(L=3, 5 steps over a 5-letter alphabet incl. both zeros)", timeout=900, tier="thorough", props=["C04"], witness_units=["highest_lowest"]),
             dict(name="vk_highest_index_l3", kind="bounded(L=3, 5 steps)", timeout=600, props=["C04"], witness_units=["highest_lowest_index"]),
             dict(name="vk_lowest_index_l3", kind="bounded(L=3, 5 steps)", timeout=600, props=["C04"], witness_units=["highest_lowest_index"]),
-            dict(name="vk_smm_l3", kind="bounded(L=3, 5 steps)", timeout=900, props=["C04"]),
-            dict(name="vk_smm_l3_guarded", kind="bounded(L=3, 5 steps)", timeout=900, props=["C04"]),
+            dict(name="vk_smm_l3", kind="bounded(L=3, 5 steps over a 5-letter alphabet incl. both zeros)", timeout=1800, tier="thorough", props=["C04"]),
+            dict(name="vk_smm_l3_guarded", kind="bounded(L=3, 5 steps over a 5-letter alphabet, no negative zero)", timeout=1800, tier="thorough", props=["C04"]),
             dict(name="vk_cross_above_under", kind="complete", timeout=600, props=["C14"]),
             dict(name="vk_cross_swap_negates", kind="complete", timeout=600, props=["C14"]),
             dict(name="vk_cross_two_steps", kind="complete", timeout=600, props=["C14"]),
@@ -191,6 +191,14 @@ PROPS["C11"] = dict(
            "only it, takes the parsed value and Ok is returned; on a parse error or any other name Err is returned and the configuration is unchanged."),
     assumptions=["strings are compared by their Seq<char> view (str_eq) and str::parse is an uninterpreted function of the text (abstract parsing)",
                  "result shape, name(), default validity and dyn forwarding (core/indicator/dd.rs) are not covered by this check yet"],
+)
+
+PROPS["C14"] = dict(
+    verus=["indicator_base"], kani=["methods"],
+    claim=("CrossAbove/CrossUnder/Cross are verified twice: in Verus over exact reals against 'fires exactly when the previous difference was negative "
+           "and the current one is non-negative' (mirrored; Cross is the signed combination; swapping the series negates: lemma cross_swap_negates), and "
+           "bit-precisely by loop-free Kani harnesses over all finite f64 inputs (complete). The reversal detectors are NOT under contract yet."),
+    assumptions=[REALS + " (Verus part); the Kani part is bit-precise over finite inputs", "Upper/Lower/ReversalSignal are not covered by this check yet"],
 )
 
 NOT_BUILT = {}
